@@ -109,8 +109,9 @@ def read_whole(spec):
 class ChunkedRead:
     """one reader stepped chunk by chunk; generator protocol so that a scheduler can interleave readers"""
 
-    def __init__(self, spec, ks, use_default=False, stream_api=False, max_chunks=400, cap=None):
+    def __init__(self, spec, ks, use_default=False, stream_api=False, max_chunks=400, cap=None, deferred=False):
         self.spec = spec
+        self.deferred = deferred      # keep the chunk objects and look at their entries only after the last chunk was read
         self.cap = cap                # max_chunk_size handed to read_chunk / read_chunks (None: not passed)
         self.ks = ks                  # list of k (cycled) or a single int
         self.use_default = use_default
@@ -149,6 +150,7 @@ class ChunkedRead:
                 self.done = True
                 return
         i = 0
+        kept = []
         while True:
             if i >= self.max_chunks:
                 self.error = Raised(RuntimeError("bnpsim: no end of stream after max_chunks chunks"))
@@ -173,15 +175,25 @@ class ChunkedRead:
                 break
             if n == 0:
                 break
-            rows = table_to_rows(c, self.spec.fmt)
-            if raised(rows):
-                self.error = rows
-                break
-            self.rows.extend(rows)
+            if self.deferred:
+                kept.append(c)
+            else:
+                rows = table_to_rows(c, self.spec.fmt)
+                if raised(rows):
+                    self.error = rows
+                    break
+                self.rows.extend(rows)
             self.chunk_sizes.append(n)
             i += 1
             yield
         call(reader.close)
+        if self.error is None:
+            for c in kept:      # "when the chunks are concatenated in order": after the reader moved on and was closed
+                rows = table_to_rows(c, self.spec.fmt)
+                if raised(rows):
+                    self.error = rows
+                    break
+                self.rows.extend(rows)
         self.done = True
 
     def step(self):
